@@ -231,6 +231,11 @@ class RefTable:
             return None
         if k == "packset":
             j, vals = op[1], op[2]
+            if self.nf == 0 and self.nr == 1:
+                # PopulationTable: its only column *is* the table, any number of values is
+                # a legitimate new content (there is nothing it could disagree with)
+                self.rows = [[[], [list(v)]] for v in vals]
+                return None
             if len(vals) != n:
                 raise RefError(None, ("metadata-" if j == self.md else "") + "offset-length")
             for r, v in zip(rows, vals):
@@ -695,10 +700,24 @@ def gen_ops(rng, name, nops, p_bad=0.04, incr=0):
                 idx = idx + [rng.choice([m, -1, m + 3])] + ([0] if m and rng.random() < 0.5 else [])
             op = [k, other, idx]
         ops.append(op)
+        before = [RefTable.copyrow(r) for r in ref.rows]
         try:
             ref.apply(op)
         except RefError:
-            pass
+            ref.rows = before
+            if op[0] == "extend":
+                # the C code appends row by row: keep the generator's idea of the table
+                # size in step with it (the valid prefix stays appended)
+                try:
+                    for r in op[1]:
+                        ref.check_row(r)
+                    for i in op[2]:
+                        if 0 <= i < len(op[1]):
+                            ref.rows.append(RefTable.copyrow(op[1][i]))
+                        else:
+                            break
+                except RefError:
+                    pass
     return ops
 
 
